@@ -374,7 +374,7 @@ class Exec:
             return
         succs = b["succs"]
         t = b.get("term")
-        if t and len(succs) == 2:
+        if t and len(succs) == 2 and t.get("kind") != "SwitchStmt":
             cond = sa.effective_cond(t)
             c = self.truth(cond, env) if cond is not None else (None, "unk")
             for si, s in enumerate(succs):
@@ -392,9 +392,9 @@ class Exec:
                         q = "imprecise"
                 self.walk(s, e2, q, onpath | {bid})
             return
-        if t and t.get("kind") == "SwitchStmt" and isinstance(t.get("cond"), dict):
-            v = self.eval(t["cond"], env)
-            cv = _strip(t["cond"])
+        if t and t.get("kind") == "SwitchStmt" and isinstance(t.get("switch_cond"), dict):
+            v = self.eval(t["switch_cond"], env)
+            cv = _strip(t["switch_cond"])
             while isinstance(cv, dict) and cv.get("k") == "cast":
                 cv = _strip(cv["e"])
             var = cv["id"] if isinstance(cv, dict) and cv.get("k") == "var" else None
